@@ -65,3 +65,21 @@ Fixpoint tcp_recv_n (k : nat) (s : sock) : list (res bytes) * sock :=
   | O => ([], s)
   | S k' => let '(r, s') := tcp_recv s in let '(rs, s'') := tcp_recv_n k' s' in (r :: rs, s'')
   end.
+
+(* BlockingTcpTransport.send: wrap, sendall, then recv.  State = scripted socket + the list of sendall() arguments so far.
+   A payload the header cannot describe is refused before anything is written or read. *)
+Definition tcp_state := (sock * list bytes)%type.
+Definition tcp_send (client server : N) (payload : bytes) (st : tcp_state) : res bytes * tcp_state :=
+  let '(s, written) := st in
+  match tcp_wrap client server payload with
+  | Err e => (Err e, st)
+  | Ok w => let '(r, s') := tcp_recv s in (r, (s', written ++ [w]))
+  end.
+
+(* a session: one send() per request on the same transport *)
+Fixpoint tcp_session (client server : N) (reqs : list bytes) (st : tcp_state) : list (res bytes) * tcp_state :=
+  match reqs with
+  | [] => ([], st)
+  | q :: reqs' => let '(r, st') := tcp_send client server q st in
+                  let '(rs, st'') := tcp_session client server reqs' st' in (r :: rs, st'')
+  end.
